@@ -805,6 +805,10 @@ func (env *Env) applyContract(fi *FuncInfo, recv *Val, args []Val, st *State, ca
 		g := not(pre.evalBool(con.PanicsWhen.Expr, st))
 		c.addObl(st, fmt.Sprintf("%scall%d:%s/nopanic", env.tag(), j, short), "pre", g, c.e.pos(call.Pos()), "callee panics when "+con.PanicsWhen.Text, nil)
 	}
+	// guarded state of a monitor object is unstable outside its lock: forget it first
+	if recv != nil {
+		env.havocGuarded(*recv, st)
+	}
 	old := st.clone()
 	// havoc the frame
 	for _, m := range con.Modifies {
@@ -1245,4 +1249,37 @@ func parseExprCached(s string) (ast.Expr, error) {
 		exprCache[s] = e
 	}
 	return e, err
+}
+
+// havocGuarded forgets the lock-protected fields of an object whose lock is not held.
+func (env *Env) havocGuarded(recv Val, st *State) {
+	c := env.c
+	_, sty, isPtr := structOf(env.subst(recv.Ty))
+	if sty == nil || !isPtr || c.freshRefs[recv.T] {
+		return
+	}
+	ssort := env.structSortOf(recv.Ty)
+	ts := c.e.typeSpecForSort(ssort)
+	if ts == nil {
+		return
+	}
+	for mu, fs := range ts.Guards {
+		if st.held[recv.T+"."+mu] {
+			continue
+		}
+		for _, f := range fs {
+			for i := 0; i < sty.NumFields(); i++ {
+				if sty.Field(i).Name() == f {
+					key := ssort + "." + f
+					h := env.heapTerm(st, key, env.sortOf(sty.Field(i).Type()))
+					nv := env.havoc(st, "unstable_"+f, sty.Field(i).Type())
+					st.heap[key] = app("store", h, recv.T, nv.T)
+				}
+			}
+		}
+		for _, inv := range ts.LockInv[mu] {
+			e2 := &Env{c: c, fn: env.fn, pkg: env.pkg, contract: true, bound: map[string]Val{"self": recv}, tsubst: env.tsubst, noSafety: true}
+			st.assume(e2.evalBool(inv.Expr, st))
+		}
+	}
 }
